@@ -213,7 +213,15 @@ REWRITE = {
              "PARTIAL: the composition bounds of the concurrent and async interfaces (e.g. 3T+2+k shard files for the shuffled concurrent reader) are derived by hand and checked by runs")],
     "C19": [("PARTIAL: whole interfaces are checked on prefixes",
              "COMPOSED (c19_sync_reader_periodic): the lazy chain of shards over itertools.cycle of the selected paths - the unshuffled repeating synchronous reader - hands over, for every k, example (k mod N) of a single pass. "
-             "PARTIAL: the other interfaces are checked on prefixes")],
+             "RUST INTERFACE (c19_rust_streams_isolated, c19_rust_stream_periodic, c19_rust_streams_live): any number of RustGenerators sharing the registry of live Rust iterators (Model/Registry.v: control flow regenerated from RustGenerator, "
+             "rust/src/lib.rs pinned), advanced and dropped in ANY interleaving: if the random registry keys never repeat, stream i receives complete passes of its own plus a prefix of its current pass (never another stream's example, never a panic), "
+             "unshuffled that is element m mod N at position m, and a request is always answered with an example unless the stream was dropped or is non-repeating and complete; with a repeating key isolation fails (c19_rust_key_reuse_breaks_isolation). "
+             "The model's answers are compared with the real interface on generated multi-stream requests. PARTIAL: the other interfaces are checked on prefixes")],
+    "C01": [("PARTIAL: container, compressors, NumPy float casts, npz and TFRecord encodings, the Rust reader are oracles measured by runs:",
+             "NPZ (Model/Npz.v; writer/reader statements pinned by GenNpz): stacking the per-attribute buffers and indexing along the leading axis returns every element of every example for every shape, layout and number of examples "
+             "(C01_npz_fixed_roundtrip); a bytes/str value comes back without its trailing NULs, i.e. exactly iff it does not end in NUL (C01_npz_str_exact_iff), so the unrestricted statement is refuted for npz with witness b'A\\0' "
+             "(C01_npz_str_roundtrip_refuted = known finding F11, replayed on the library by every run); the model is compared with the synchronous reader on every shard of every npz job. "
+             "PARTIAL: container, compressors, NumPy float casts, the .npy byte encoding, the TFRecord encoding, the Rust reader are oracles measured by runs:")],
     "C05": [("Tie: real check() on every tamper kind",
              "And over the session model of C04 (c05_check_passes_after_every_history): after every history of sessions that completes, the model's integrity check returns true. Tie: real check() on every tamper kind")],
     "C09": [("PARTIAL: that the real workers are independent",
